@@ -107,6 +107,7 @@ fn generate_dynamic(g: &mut Gen, stats: &mut GenStats) -> Scenario {
         // a pass-through observer: its closure is where in-flight triggers fire
         layers: vec![Layer::Fe(vec![])],
         taps: g.rng.chance(1, 3),
+        erased: false,
     };
     if g.rng.chance(5, 10) {
         let (e, r) = g.walk_glob(&model, &base, 1, true, &mut stats.rejections);
@@ -206,7 +207,8 @@ pub fn generate(rng: &mut Rng, tier: Tier, stats: &mut GenStats) -> Scenario {
     if g.rng.chance(7, 100) {
         let dirs = Gen::plain_dirs(&model0);
         let d = g.rng.pick(&dirs).clone();
-        let k = g.rng.range(3, 5);
+        // (sometimes a long run: dozens of consecutive error items)
+        let k = if g.rng.chance(15, 100) { g.rng.range(33, 80) } else { g.rng.range(3, 5) };
         for i in 0..k {
             let path = join(&d, &format!("f{}", i));
             let node = match g.rng.below(4) {
@@ -232,6 +234,7 @@ pub fn generate(rng: &mut Rng, tier: Tier, stats: &mut GenStats) -> Scenario {
         victims: vec![],
         layers: vec![Layer::Fe(vec![])],
         taps: g.rng.chance(1, 2),
+        erased: false,
     };
     if g.rng.chance(6, 10) {
         w.source = Source::Glob {
@@ -254,12 +257,14 @@ pub fn generate(rng: &mut Rng, tier: Tier, stats: &mut GenStats) -> Scenario {
     }
     let mut victims: Vec<String> = Vec::new();
     if g.rng.chance(6, 10) {
+        w.erased = g.rng.chance(1, 3);
+        let deep = w.erased && g.rng.chance(1, 4);
         w.layers = layers(
             &mut g,
             &model,
             &w,
             &StackOpts {
-                max_layers: 3,
+                max_layers: if deep { 7 } else { 3 },
                 observer: true,
             },
             stats,
@@ -837,6 +842,9 @@ fn source_clauses(
     }
     if uv.es.len() >= 3 {
         out.probe("fault:three-or-more-error-items");
+    }
+    if uv.es.len() >= 32 {
+        out.probe("fault:dozens-of-error-items");
     }
 }
 
